@@ -89,15 +89,64 @@ var kinds = []kind{
 	{"*Inner", func(t *rapid.T) any {
 		return &Inner{A: rapid.IntRange(-99, 99).Draw(t, "a"), B: strGen.Draw(t, "b")}
 	}, false},
+	{"[]Inner", func(t *rapid.T) any {
+		n := rapid.IntRange(1, 3).Draw(t, "n")
+		out := make([]Inner, n)
+		for i := range out {
+			out[i] = Inner{A: rapid.IntRange(-9, 9).Draw(t, "a"), B: strGen.Draw(t, "b"), C: rapid.SliceOfN(rapid.IntRange(0, 9), 0, 2).Draw(t, "c")}
+		}
+		return out
+	}, false},
+	{"map[string]Inner", func(t *rapid.T) any {
+		return rapid.MapOfN(rapid.StringMatching(`[a-z]{1,3}`), rapid.Custom(func(t *rapid.T) Inner {
+			return Inner{A: rapid.IntRange(-9, 9).Draw(t, "a"), B: strGen.Draw(t, "b")}
+		}), 1, 2).Draw(t, "msinner")
+	}, false},
+	{"map[string]any", func(t *rapid.T) any {
+		return rapid.MapOfN(rapid.StringMatching(`[a-z]{1,3}`), rapid.OneOf(
+			rapid.Map(rapid.IntRange(-99, 99), func(i int) any { return i }),
+			rapid.Map(strGen, func(s string) any { return s }),
+			rapid.Map(rapid.Bool(), func(b bool) any { return b }),
+			rapid.Map(rapid.SampledFrom([]float64{0.5, 2.25, 1500000.5}), func(f float64) any { return f }),
+		), 1, 3).Draw(t, "msa")
+	}, false},
+	{"[]map[string]any", func(t *rapid.T) any {
+		n := rapid.IntRange(1, 2).Draw(t, "n")
+		out := make([]map[string]any, n)
+		for i := range out {
+			out[i] = map[string]any{"k": rapid.StringMatching(`[a-z]{1,4}`).Draw(t, "k"), "n": rapid.IntRange(0, 9).Draw(t, "nn")}
+		}
+		return out
+	}, false},
 	{"Outer", func(t *rapid.T) any {
 		return Outer{Name: strGen.Draw(t, "name"), In: Inner{A: rapid.IntRange(0, 9).Draw(t, "a"), B: strGen.Draw(t, "b")},
 			Tags: rapid.SliceOfN(strGen, 0, 2).Draw(t, "tags"), M: rapid.MapOfN(rapid.StringMatching(`[a-z]{1,2}`), strGen, 0, 2).Draw(t, "m")}
 	}, false},
 }
 
+// looseAnyNumbers: when set, numbers held in interface-typed positions are compared by value only
+// (known finding C17/any-number-kind: they arrive as float64 through value / prop, as int through prefix).
+var looseAnyNumbers bool
+
 // norm: nil == empty for slices and maps (YAML cannot tell them apart).
 func norm(v reflect.Value) any {
 	switch v.Kind() {
+	case reflect.Interface:
+		if v.IsNil() {
+			return nil
+		}
+		e := v.Elem()
+		if looseAnyNumbers {
+			switch e.Kind() {
+			case reflect.Int, reflect.Int64, reflect.Int32:
+				return float64(e.Int())
+			case reflect.Uint, reflect.Uint64:
+				return float64(e.Uint())
+			case reflect.Float32, reflect.Float64:
+				return e.Float()
+			}
+		}
+		return norm(e)
 	case reflect.Pointer:
 		if v.IsNil() {
 			return nil
@@ -205,6 +254,7 @@ func nontrivial(v reflect.Value) bool {
 func TestRoundTrip(t *testing.T) {
 	kit.Rec.Rule(rule)
 	knownReparse := kit.IsKnown("value-path-reparse")
+	knownAnyNum := kit.IsKnown("any-number-kind")
 	rapid.Check(t, func(t *rapid.T) {
 		k := rapid.SampledFrom(kinds).Draw(t, "kind")
 		v := k.Gen(t)
@@ -268,6 +318,12 @@ func TestRoundTrip(t *testing.T) {
 			kit.Rec.Exclude("value-path-reparse")
 			kit.Rec.Case(desc, false, "excluded-known")
 			return
+		}
+		if knownAnyNum && hasAnyNumber(rv) {
+			// excluded by construction: only the numeric kind inside any-typed positions is left out of the comparison
+			kit.Rec.Exclude("any-number-kind")
+			looseAnyNumbers = true
+			defer func() { looseAnyNumbers = false }()
 		}
 		if !reflect.DeepEqual(norm(vv), norm(p)) {
 			t.Fatalf("C17: value:\"${k}\" binds %#v where prefix:\"k\" binds %#v (%s)\nyaml:\n%s", norm(vv), norm(p), k.Name, doc)
@@ -473,4 +529,58 @@ func TestCrossType(t *testing.T) {
 		}
 		kit.Rec.Case(desc, true, "cross/"+fmt.Sprintf("%T->%s", v, typ))
 	})
+}
+
+
+// hasAnyNumber: a number sits in an interface-typed position somewhere inside v.
+func hasAnyNumber(v reflect.Value) bool {
+	switch v.Kind() {
+	case reflect.Interface:
+		if v.IsNil() {
+			return false
+		}
+		switch v.Elem().Kind() {
+		case reflect.Int, reflect.Int64, reflect.Int32, reflect.Uint, reflect.Uint64, reflect.Float32, reflect.Float64:
+			return true
+		}
+		return hasAnyNumber(v.Elem())
+	case reflect.Pointer:
+		return !v.IsNil() && hasAnyNumber(v.Elem())
+	case reflect.Slice:
+		for i := 0; i < v.Len(); i++ {
+			if hasAnyNumber(v.Index(i)) {
+				return true
+			}
+		}
+	case reflect.Map:
+		for _, k := range v.MapKeys() {
+			if hasAnyNumber(v.MapIndex(k)) {
+				return true
+			}
+		}
+	case reflect.Struct:
+		for i := 0; i < v.NumField(); i++ {
+			if hasAnyNumber(v.Field(i)) {
+				return true
+			}
+		}
+	}
+	return false
+}
+
+// TestKnownAnyNumberKind replays the fixed witness of known finding C17/any-number-kind:
+// m: {n: 1} bound to map[string]any gives int 1 by prefix and float64 1 through value / prop.
+func TestKnownAnyNumberKind(t *testing.T) {
+	type T struct {
+		P map[string]any `prefix:"c17.m"`
+		V map[string]any `value:"${c17.m}"`
+	}
+	obj := &T{}
+	out := kit.RunApp(app.SetComponents(obj), app.SetConfigLoader(loader.NewRawLoader([]byte("c17:\n  m:\n    n: 1\n"))))
+	if !out.OK() {
+		kit.Rec.KnownWitness("any-number-kind", false, "start failed: "+out.String())
+		return
+	}
+	fails := fmt.Sprintf("%T", obj.P["n"]) != fmt.Sprintf("%T", obj.V["n"])
+	kit.Rec.KnownWitness("any-number-kind", fails, fmt.Sprintf("prefix twin holds %T(%v), value twin holds %T(%v)", obj.P["n"], obj.P["n"], obj.V["n"], obj.V["n"]))
 }
